@@ -409,12 +409,15 @@ class Rewriter:
             self.count("R22 Option::%s(closure) -> match (closure body kept)" % which)
 
     def loop_continue(self, text):
-        """R24: `continue` is not supported in Verus `for` loops.  Shape handled: a loop body statement
-        `if COND { STMTS; continue; }` (no else) becomes `if COND { STMTS } else { <rest of the loop body> }`."""
+        """R24: Verus has no `continue` in `for` loops.  Every loop body that contains a `continue` (in nested
+        if / else / match-arm blocks, not in closures or inner loops) gets a per-iteration flag: `let mut vx_cont = false;`
+        at the top, `continue;` -> `vx_cont = true;`, and the statements that follow a statement which may set the flag
+        are wrapped in `if !vx_cont { .. }` at every nesting level.  Anything else (labels, `continue` as an expression,
+        match arms without braces) -> UNDECIDED."""
         guard = 0
         while True:
             guard += 1
-            if guard > 50:
+            if guard > 30:
                 raise ExtractError("R24: too many rewrites")
             toks = [t for t in tokenize(text) if t.kind not in ("ws", "comment")]
             kc = None
@@ -424,79 +427,173 @@ class Rewriter:
                     break
             if kc is None:
                 return text
-            if not (kc + 2 < len(toks) and toks[kc + 1].text == ";" and toks[kc + 2].text == "}"):
-                raise ExtractError("R24: unsupported `continue` shape (not the last statement of a block)")
-            close1 = kc + 2
-            # opening brace of the block that ends with `continue;`
+            if kc + 1 >= len(toks) or toks[kc + 1].text != ";":
+                raise ExtractError("R24: unsupported `continue` shape")
+            # innermost enclosing loop body of this `continue`
             depth = 0
-            open1 = None
-            for j in range(close1 - 1, -1, -1):
+            body_open = None
+            j = kc - 1
+            while j >= 0:
                 tt = toks[j]
                 if tt.kind == "punct" and tt.text in CLOSE:
                     depth += 1
                 elif tt.kind == "punct" and tt.text in OPEN:
                     if depth == 0:
-                        open1 = j
-                        break
-                    depth -= 1
-            if open1 is None or toks[open1].text != "{":
-                raise ExtractError("R24: cannot find the block of `continue`")
-            # the `if` that owns this block: walk back over the condition
+                        if tt.text != "{":
+                            raise ExtractError("R24: `continue` inside parentheses (closure?)")
+                        if self._is_loop_body(toks, j):
+                            body_open = j
+                            break
+                        if self._is_closure_body(toks, j):
+                            raise ExtractError("R24: `continue` inside a closure")
+                    else:
+                        depth -= 1
+                j -= 1
+            if body_open is None:
+                raise ExtractError("R24: `continue` outside a loop body")
+            body_close = match_close(toks, body_open)
+            inner = self._cont_block(text, toks, body_open + 1, body_close)
+            old_body = text[toks[body_open].end:toks[body_close].start]
+            new_body = " let mut vx_cont = false; " + inner
+            new_body += "\n" * max(0, old_body.count("\n") - new_body.count("\n"))      # keep the line count
+            text = text[:toks[body_open].end] + new_body + text[toks[body_close].start:]
+            self.count("R24 loop body with `continue` -> per-iteration flag vx_cont")
+
+    @staticmethod
+    def _is_loop_body(toks, kopen):
+        depth = 0
+        for j in range(kopen - 1, -1, -1):
+            tt = toks[j]
+            if tt.kind == "punct" and tt.text in ")]":
+                depth += 1
+            elif tt.kind == "punct" and tt.text in "([":
+                if depth == 0:
+                    return False
+                depth -= 1
+            elif depth == 0 and tt.kind == "punct" and tt.text in ";{}":
+                return False
+            elif depth == 0 and tt.kind == "ident" and tt.text in ("for", "while", "loop"):
+                return True
+            elif depth == 0 and tt.kind == "ident" and tt.text in ("if", "else", "match"):
+                return False
+        return False
+
+    @staticmethod
+    def _is_closure_body(toks, kopen):
+        return kopen > 0 and toks[kopen - 1].kind == "punct" and toks[kopen - 1].text == "|"
+
+    def _split_stmts(self, toks, a, b):
+        """statement ranges [s, e) of the token range [a, b) of a block"""
+        out = []
+        s = a
+        while s < b:
+            first = toks[s]
+            blocklike = first.kind == "ident" and first.text in ("if", "match", "for", "while", "loop", "unsafe") or first.text == "{"
             depth = 0
-            kif = None
-            for j in range(open1 - 1, -1, -1):
-                tt = toks[j]
-                if tt.kind == "punct" and tt.text in CLOSE:
+            e = s
+            while e < b:
+                tt = toks[e]
+                if tt.kind == "punct" and tt.text in OPEN:
                     depth += 1
-                elif tt.kind == "punct" and tt.text in OPEN:
-                    if depth == 0:
-                        break
+                elif tt.kind == "punct" and tt.text in CLOSE:
                     depth -= 1
-                elif depth == 0 and tt.kind == "punct" and tt.text == ";":
-                    break
-                elif depth == 0 and tt.kind == "ident" and tt.text == "if":
-                    kif = j
-                    break
-            if kif is None or (kif > 0 and toks[kif - 1].kind == "ident" and toks[kif - 1].text == "else"):
-                raise ExtractError("R24: `continue` is not in a plain `if` block")
-            if close1 + 1 < len(toks) and toks[close1 + 1].kind == "ident" and toks[close1 + 1].text == "else":
-                raise ExtractError("R24: `if .. { continue } else ..` is not handled")
-            # the block containing the `if` must be a loop body
-            depth = 0
-            open0 = None
-            for j in range(kif - 1, -1, -1):
-                tt = toks[j]
-                if tt.kind == "punct" and tt.text in CLOSE:
-                    depth += 1
-                elif tt.kind == "punct" and tt.text in OPEN:
-                    if depth == 0:
-                        open0 = j
+                    if depth == 0 and tt.text == "}" and blocklike:
+                        nxt = toks[e + 1] if e + 1 < b else None
+                        if nxt is not None and nxt.kind == "ident" and nxt.text == "else":
+                            e += 1
+                            continue
+                        if nxt is not None and nxt.kind == "punct" and nxt.text in ".?;":
+                            blocklike = False      # expression continues (method call on a block value) / explicit `;`
+                            e += 1
+                            continue
+                        e += 1
                         break
-                    depth -= 1
-            if open0 is None or toks[open0].text != "{":
-                raise ExtractError("R24: cannot find the loop body")
-            is_loop = False
-            depth = 0
-            for j in range(open0 - 1, -1, -1):
-                tt = toks[j]
-                if tt.kind == "punct" and tt.text in ")]":
-                    depth += 1
-                elif tt.kind == "punct" and tt.text in "([":
-                    if depth == 0:
-                        break
-                    depth -= 1
-                elif depth == 0 and tt.kind == "punct" and tt.text in ";{}":
+                elif tt.kind == "punct" and tt.text == ";" and depth == 0:
+                    e += 1
                     break
-                elif depth == 0 and tt.kind == "ident" and tt.text in ("for", "while", "loop"):
-                    is_loop = True
-                    break
-            if not is_loop:
-                raise ExtractError("R24: `if .. { continue }` is not a direct statement of a loop body")
-            close0 = match_close(toks, open0)
-            # apply: close the else before the loop body's `}`, open it after the if-block, drop `continue;`
-            text = (text[:toks[kc].start] + " " * (toks[kc + 1].end - toks[kc].start) + text[toks[kc + 1].end:toks[close1].end]
-                    + " else {" + text[toks[close1].end:toks[close0].start] + "} " + text[toks[close0].start:])
-            self.count("R24 `if c { ..; continue; }` in a loop body -> `if c { .. } else { rest of the body }`")
+                e += 1
+            out.append((s, e))
+            s = e
+        return out
+
+    @staticmethod
+    def _has_continue(toks, a, b):
+        return any(t.kind == "ident" and t.text == "continue" for t in toks[a:b])
+
+    def _cont_block(self, text, toks, a, b):
+        """rewritten text of the statements in token range [a, b) (the inside of a block)"""
+        if a >= b:
+            return ""
+        stmts = self._split_stmts(toks, a, b)
+        for idx, (s, e) in enumerate(stmts):
+            if not self._has_continue(toks, s, e):
+                continue
+            head = text[toks[a].start:toks[s].start] if s > a else ""
+            st = self._cont_stmt(text, toks, s, e)
+            rest = ""
+            if idx + 1 < len(stmts):
+                rs = stmts[idx + 1][0]
+                rest_inner = self._cont_block(text, toks, rs, b)
+                rest = " if !vx_cont { " + rest_inner + " }"
+            tail_ws = ""
+            return head + st + rest + tail_ws
+        return text[toks[a].start:toks[b - 1].end]
+
+    def _cont_stmt(self, text, toks, s, e):
+        first = toks[s]
+        if first.kind == "ident" and first.text == "continue":
+            if e - s != 2:
+                raise ExtractError("R24: unsupported `continue` statement")
+            return "vx_cont = true;"
+        if first.kind == "ident" and first.text in ("for", "while", "loop"):
+            raise ExtractError("R24: `continue` in a nested loop is handled from the inside out")
+        if not (first.kind == "ident" and first.text in ("if", "match")):
+            raise ExtractError("R24: `continue` inside a `%s` statement" % first.text)
+        # rewrite every brace block of this if-chain / match that contains a continue
+        out = []
+        k = s
+        last = toks[s].start
+        depth_paren = 0
+        while k < e:
+            tt = toks[k]
+            if tt.kind == "punct" and tt.text in "([":
+                depth_paren += 1
+            elif tt.kind == "punct" and tt.text in ")]":
+                depth_paren -= 1
+            elif tt.kind == "punct" and tt.text == "{" and depth_paren == 0:
+                c = match_close(toks, k)
+                if self._has_continue(toks, k + 1, c):
+                    if first.text == "match" and k == self._match_body_open(toks, s, e):
+                        # the match body itself: descend into arms (their own brace blocks are found by the scan)
+                        out.append(text[last:tt.end])
+                        last = tt.end
+                        k += 1
+                        continue
+                    if self._is_closure_body(toks, k):
+                        raise ExtractError("R24: `continue` inside a closure")
+                    out.append(text[last:tt.end] + " " + self._cont_block(text, toks, k + 1, c) + " ")
+                    last = toks[c].start
+                k = c
+                continue
+            k += 1
+        out.append(text[last:toks[e - 1].end])
+        res = "".join(out)
+        if re.search(r"\bcontinue\b", res):
+            raise ExtractError("R24: `continue` in a position that is not a brace block (match arm without braces?)")
+        return res
+
+    @staticmethod
+    def _match_body_open(toks, s, e):
+        depth = 0
+        for k in range(s + 1, e):
+            tt = toks[k]
+            if tt.kind == "punct" and tt.text in "([":
+                depth += 1
+            elif tt.kind == "punct" and tt.text in ")]":
+                depth -= 1
+            elif tt.kind == "punct" and tt.text == "{" and depth == 0:
+                return k
+        return -1
 
     def apply_maps(self, text, maps, what):
         for rx, repl in maps:
